@@ -12,7 +12,7 @@ CHECKS = {
 }
 CHECKS["C17"] = dict(
    technique="reference-model monitor: exhaustive operand-pair comparison with carry-less reference arithmetic; RS histories checked by root evaluation; cache-invariant hook evaluated under the cache's own lock",
-   text="Exploration, exhaustive for the finite part: all operand pairs of all 7 constructed fields (3.4e7 products, divisions, inverses) against table-free reference arithmetic; all triples of the fields up to 256 elements for associativity (thorough; sampled in quick and for GF(1024)/GF(4096)); random/structured polynomials; RS encoder histories with check counts 1..600 in ascending/descending/random/repeated order, verified by evaluating data||check at the required roots, with the verif hook asserting the generator-polynomial cache invariant under the lock.",
+   text="Exploration, exhaustive for the finite part: all operand pairs of all 7 constructed fields (1.8e7 operand pairs: products both ways, divisions, inverses) against table-free reference arithmetic; all triples of the fields up to 256 elements for associativity (thorough; sampled in quick and for GF(1024)/GF(4096)); random/structured polynomials; RS encoder histories with check counts 1..600 in ascending/descending/random/repeated order, verified by evaluating data||check at the required roots, with the verif hook asserting the generator-polynomial cache invariant under the lock.",
    note="trusted: shift-and-xor reference arithmetic in refdec/gf.go; don't-care: division by zero, Invers(0), zero check symbols",
    ref="C17")
 CHECKS["C05"] = dict(
@@ -45,6 +45,26 @@ CHECKS["C14"] = dict(
    text="Exploration: random EAN inputs of all four lengths, Code 128 contents over all classes, Code 39 contents in all option mixes plus all two-character texts; the drawn check character must carry the reported value.",
    note="trusted: the 1D reference decoders; Code 39 check value defined over the expanded data characters",
    ref="C14")
+CHECKS["C01"] = dict(
+   technique="reference-decoder monitor: independent ISO 18004 reader (function patterns, BCH, unmask, de-interleave, RS syndromes, segment/terminator/pad parse) run on the pixels of every symbol the real encoder emits",
+   text="Exploration: one symbol at capacity for each of the 160 (version, level) layouts, capacity boundaries cap-1/cap/cap+1 in all three modes (60 boundaries quick, all 480 thorough), random contents in four modes, hostile inputs (signs, spaces, invalid UTF-8, multi-byte), empty content; all 8 masks observed.",
+   note="trusted: block table, alignment formula, BCH generators, mask predicates in refdec/qr.go (written from ISO 18004 / Nayuki, independent of /repo)",
+   ref="C01")
+CHECKS["C02"] = dict(
+   technique="reference-decoder monitor: independent ISO 16022 ECC 200 reader (finder/clock per region, Annex F placement, RS syndromes, ASCII + upper shift + 253-state pads)",
+   text="Exploration: ASCII-encodation lengths cap-1/cap/cap+1 around all 24 capacities in five content classes plus random byte strings (quick); every codeword count 0..1560 in every class (thorough); all 24 sizes, 1/4/16/36 regions, 1..10 blocks, corner cases 1 and 2 and the fixed pattern observed.",
+   note="trusted: size table and Annex F placement in refdec/datamatrix.go; 144x144 check-word interleave accepted in both conventions",
+   ref="C02")
+CHECKS["C03"] = dict(
+   technique="reference-decoder monitor: independent ISO 24778 reader (bullseye, orientation, RS-checked mode message, reference grid, spiral, RS syndromes per word size, un-stuffing, 5-mode + binary-shift decode)",
+   text="Exploration: all 36 sizes forced by explicit layer requests and reached by automatic sizing, 13 ecc percentages, payload classes (empty, all byte values, mode-transition walks, punct pairs in every mode, digit runs, binary runs around 31/62/2078, stuffing runs) — each accepted symbol decoded and compared, explicit layer requests must be honoured exactly.",
+   note="trusted: tables and geometry in refdec/aztec.go (decoder direction of ISO 24778)",
+   ref="C03")
+CHECKS["C04"] = dict(
+   technique="reference-decoder monitor: independent ISO 15438 reader (start/stop, pattern laws + cluster, row indicators, length descriptor, RS syndromes mod 929, text/byte/numeric decode)",
+   text="Exploration: 9 levels x sub-mode walks, text/913/text in every final sub-mode and parity, digit runs around 13/44/88, byte runs of every length mod 6, UTF-8, length sweep to ~900 codewords; all 929 patterns of all 3 clusters and 100+ (rows, cols) shapes observed in the quick tier.",
+   note="TRUSTED DATA: frozen pattern->value snapshot (refdec/pdf417_table.go) admitted after structural-law check; formulas from ISO 15438",
+   ref="C04")
 PENDING = {}
 
 def main():
